@@ -464,3 +464,55 @@ def col_nav_inv(v):
     left = cands.step < 0
     passed = forall(v.i - v.i_, v.i, lambda p: neg(sel(p))) if left else forall(v.i + 1, v.i + 1 + v.i_, lambda p: neg(sel(p)))
     return both(v.self._contents._focus == v.i, 0 <= v.i, v.i < Q.seq_len(items), passed)
+
+
+# ============================================================================= the container shortcut `container[p]`
+CT = "urwid/widget/container.py:"
+
+
+def base_widget_of(w):
+    """`w.base_widget` of an opaque child (contract side): in the widget protocol another individual than `w` -- the
+    statement's clauses about "the child" (selectable, offered the key, rendered with focus) are about `w` itself."""
+    return PROTOCOLS["Widget"].getattr(None, cur(), w, "base_widget")
+
+
+def _norm(p, n):
+    return ite(p < 0, p + n, p)
+
+
+def _getitem_contract(shape, inl, alias=None):
+    kw = dict(alias=alias) if alias else {}
+
+    @contract(CT + "WidgetContainerMixin.__getitem__", property="C08", inline=inl, replayable=False, **kw)
+    class container_getitem:
+        """`container[p]` is `container.contents[p][0].base_widget`: the child at that position *without its decorations*
+        -- NOT the child.  Callers that need the child's own answers (selectable(), keypress(), render()) must go through
+        `contents`; at a call site this contract hands back the base widget, a different individual."""
+
+        self_shape = shape
+        params = dict(position=Int)
+        result = Opaque("Widget")
+        raises = (IndexError,)
+        raises_iff = {IndexError: lambda s, a: either(a.position < -n_items(s), a.position >= n_items(s))}
+        # used at call sites whose receiver is modelled with a `_contents` list (Pile, Columns, GridFlow); for a Frame or
+        # an Overlay receiver `self[...]` stays an unsupported call (an honest NOT-GENERATED, never a silent pass)
+        receiver_fields = ("_contents",)
+
+        def ensures(old, s, a, result):
+            n = n_items(old)
+            yield "a-valid-position", both(-n <= a.position, a.position < n)
+            yield "the-base-widget-of-that-child", eq(result, base_widget_of(item_at(old, _norm(a.position, n))[0]))
+            yield "container-untouched", both(n_items(s) == n, s._contents._focus == old._contents._focus)
+
+        def on_raise(old, s, a, exc):
+            n = n_items(old)
+            yield "only-for-an-invalid-position", either(a.position < -n, a.position >= n)
+
+        def pure_spec(old, a):
+            return base_widget_of(item_at(old, _norm(a.position, n_items(old)))[0])
+
+    return container_getitem
+
+
+container_getitem = _getitem_contract(PILE, PINL)
+container_getitem_columns = _getitem_contract(COLUMNS, CINL, alias="columns")
